@@ -16,7 +16,8 @@ __all__ = ['CSSProductions', 'MACROS', 'PRODUCTIONS']
 # a complete list of css3 macros
 MACROS = {
     'nonascii': r'[^\0-\177]',
-    'unicode': r'\\[0-9A-Fa-f]{1,6}(?:{nl}|{s})?',
+    # white space after the escape belongs to it (no way to read it as something else: no ambiguity, no backtracking)
+    'unicode': r'\\[0-9A-Fa-f]{1,6}(?:{nl}|{s}|(?![\t\r\n\f\x20]))',
     # 'escape': r'{unicode}|\\[ -~\200-\777]',
     'escape': r'{unicode}|\\[^\n\r\f0-9a-f]',
     'nmstart': r'[_a-zA-Z]|{nonascii}|{escape}',
@@ -33,7 +34,8 @@ MACROS = {
     'string': r'{string1}|{string2}',
     # from CSS2.1
     'invalid': r'{invalid1}|{invalid2}',
-    'url': r'[\x09\x21\x23-\x26\x28\x2a-\x7E]|{nonascii}|{escape}',
+    # a backslash only as part of an escape (as in CSS 2.1), else every escape can be read in two ways
+    'url': r'[\x09\x21\x23-\x26\x28\x2a-\x5B\x5D-\x7E]|{nonascii}|{escape}',
     's': r'\t|\r|\n|\f|\x20',
     'w': r'{s}*',
     'nl': r'\n|\r\n|\r|\f',
